@@ -43,8 +43,8 @@ type Catalog struct {
 
 var segText = map[string]string{
 	"a": "a", "b": "b", "c": "c", "e": "",
-	"m": `k*?\[0]#|@`,
-	"u": "ключ-é",
+	"m":  `k*?\[0]#|@`,
+	"u":  "ключ-é",
 	"id": "id", "p": "p", "k1": "k1", "k2": "k2",
 }
 
